@@ -19,7 +19,10 @@
 (define bitwise-ior  (make-nary bit-ior   0))
 (define bitwise-xor  (make-nary bit-xor   0))
 
-(define bitwise-eqv  (bitwise-complement (make-nary bit-xor -1)))
+;; n-ary eqv is the fold of the binary (associative) eqv from its
+;; identity -1, not the complement of the n-ary xor
+(define bitwise-eqv
+  (make-nary (lambda (i j) (bitwise-not (bit-xor i j))) -1))
 (define bitwise-nand (bitwise-complement (make-nary bit-and  0)))
 (define bitwise-nor  (bitwise-complement (make-nary bit-ior -1)))
 
